@@ -1,7 +1,7 @@
 #!/usr/bin/env python3
 """regen_floors.py: rewrite rules/floors.json from the per-rule instance counts in evidence/*.json (run after a full quick pass on the
-unchanged tree, once the new instances were confirmed by reading).  A floor is exact for rules with at most 8 instances and 90% of today's
-count otherwise: a rule that silently matches fewer sites than were confirmed is analysis-broken (exit 2), not a pass."""
+unchanged tree, once the new instances were confirmed by reading).  A floor is the count minus one for rules with 2..8 instances (an extracted or inlined local legitimately removes one), 1 for 1, and 90% of
+today's count otherwise: a rule that silently matches fewer sites than were confirmed is analysis-broken (exit 2), not a pass."""
 import json, os
 V = os.path.dirname(os.path.dirname(os.path.abspath(__file__)))
 old = json.load(open(os.path.join(V, 'rules', 'floors.json')))
@@ -10,7 +10,7 @@ for p in sorted(old):
     e = json.load(open(os.path.join(V, 'evidence', p + '.json')))
     br = e['coverage']['rule_instance_counts']
     br = eval(br) if isinstance(br, str) else br
-    new[p] = {r: (c if c <= 8 else int(c * 0.9)) for r, c in sorted(br.items()) if c > 0}
+    new[p] = {r: (1 if c == 1 else c - 1 if c <= 8 else int(c * 0.9)) for r, c in sorted(br.items()) if c > 0}
     for r in sorted(set(new[p]) | set(old[p])):
         if new[p].get(r) != old[p].get(r):
             print(p, r, old[p].get(r), '->', new[p].get(r))
